@@ -582,6 +582,7 @@ class LoopContract:
 
 
 def _check_inv(I: Interp, lc: LoopContract, fr: Frame, key: tuple[str, int], phase: str) -> None:
+    I.ghost["__loop_phase"] = phase
     for name, f in lc.invariant(I, fr):
         I.prove(f"{key[0]}/loop{key[1]}/inv:{name}/{phase}", f)
 
@@ -605,6 +606,7 @@ def while_loop(I: Interp, st: ast.While, fr: Frame) -> None:
                           f"within 512 concrete iterations")
     _check_inv(I, lc, fr, key, "init")
     lc.havoc(I, fr)
+    I.ghost["__loop_phase"] = "assume"
     for name, f in lc.invariant(I, fr):
         I.assume(f)
     v0 = lc.variant(I, fr) if lc.variant else None
@@ -641,6 +643,7 @@ def invariant_for(I: Interp, st: Any, fr: Frame, it: V, lc: LoopContract,
     k = I.fresh_int("k")
     fr.env[kname] = k
     I.assume(z3.And(k.t >= 0, k.t <= n))
+    I.ghost["__loop_phase"] = "assume"
     for name, f in lc.invariant(I, fr):
         I.assume(f)
     if I.branch(k.t < n):
